@@ -282,28 +282,6 @@ impl World {
                         }
                     }
                 }
-                // a calculator configured and then switched to another mode must be the calculator one gets by switching first
-                // and configuring afterwards (the switch carries the whole configuration over, whatever its history)
-                if map.mode == rosu_pp::model::mode::GameMode::Osu {
-                    use rosu_pp::any::HitResultPriority::WorstCase;
-                    type Cfg = (&'static str, fn(Performance<'_>) -> Performance<'_>);
-                    let cfgs: [Cfg; 4] = [
-                        ("hitresult_priority(WorstCase).misses(1)", |p| p.hitresult_priority(WorstCase).misses(1)),
-                        ("hitresult_priority(WorstCase).accuracy(80)", |p| p.hitresult_priority(WorstCase).accuracy(80.0)),
-                        ("mods(HR).combo(2).n100(1)", |p| p.mods(settings::HR).combo(2).n100(1)),
-                        ("lazer(false).passed_objects(3).misses(1)", |p| p.lazer(false).passed_objects(3).misses(1)),
-                    ];
-                    for m in 1..4u8 {
-                        for (what, cfg) in cfgs {
-                            let first = cfg(Performance::new(map)).try_mode(gen::game_mode(m)).ok().expect("reachable");
-                            let after = cfg(Performance::new(map).try_mode(gen::game_mode(m)).ok().expect("reachable"));
-                            let (x, y) = (first.calculate(), after.calculate());
-                            if impure.is_none() && !same(&x, &y) {
-                                impure = Some(format!("Performance::new(map).{what}, then switched to mode {m}: differs from switching first and configuring afterwards\n configured, then switched: {x:?}\n switched, then configured: {y:?}"));
-                            }
-                        }
-                    }
-                }
                 format!("{a1:?} {r1:?}")
             }
         };
@@ -312,6 +290,53 @@ impl World {
         }
         (digest(&canon(&out)), impure)
     }
+}
+
+/// Builder histories that must not matter, decided once per map: configure-then-switch vs switch-then-configure, and
+/// generate_state() before calculate().
+fn builder_histories(map: &Beatmap) -> Option<String> {
+    // a calculator configured and then switched to another mode must be the calculator one gets by switching first
+    // and configuring afterwards (the switch carries the whole configuration over, whatever its history)
+    if map.mode == rosu_pp::model::mode::GameMode::Osu {
+        use rosu_pp::any::HitResultPriority::WorstCase;
+        type Cfg = (&'static str, fn(Performance<'_>) -> Performance<'_>);
+        let cfgs: [Cfg; 4] = [
+            ("hitresult_priority(WorstCase).misses(1)", |p| p.hitresult_priority(WorstCase).misses(1)),
+            ("hitresult_priority(WorstCase).accuracy(80)", |p| p.hitresult_priority(WorstCase).accuracy(80.0)),
+            ("mods(HR).combo(2).n100(1)", |p| p.mods(settings::HR).combo(2).n100(1)),
+            ("lazer(false).passed_objects(3).misses(1)", |p| p.lazer(false).passed_objects(3).misses(1)),
+        ];
+        for m in 1..4u8 {
+            for (what, cfg) in cfgs {
+                let first = cfg(Performance::new(map)).try_mode(gen::game_mode(m)).ok().expect("reachable");
+                let after = cfg(Performance::new(map).try_mode(gen::game_mode(m)).ok().expect("reachable"));
+                let (x, y) = (first.calculate(), after.calculate());
+                if !same(&x, &y) {
+                    return Some(format!("Performance::new(map).{what}, then switched to mode {m}: differs from switching first and configuring afterwards\n configured, then switched: {x:?}\n switched, then configured: {y:?}"));
+                }
+            }
+        }
+    }
+    // asking a calculator for its generated state (any number of times) must not change what it calculates
+    // afterwards: the same builder, never asked, is the reference
+    {
+        type Cfg = (&'static str, fn(Performance<'_>) -> Performance<'_>);
+        let cfgs: [Cfg; 3] = [("combo(2).misses(1)", |p| p.combo(2).misses(1)), ("combo(1).accuracy(90)", |p| p.combo(1).accuracy(90.0)), ("n100(1).combo(3)", |p| p.n100(1).combo(3))];
+        let modes: Vec<u8> = if map.mode == rosu_pp::model::mode::GameMode::Osu { vec![0, 1, 2, 3] } else { vec![gen::mode_num(map.mode)] };
+        for m in modes {
+            for (what, cfg) in cfgs {
+                let mk = || cfg(Performance::new(map).try_mode(gen::game_mode(m)).ok().expect("reachable"));
+                let fresh = mk().calculate();
+                let mut p = mk();
+                let (g1, g2) = (p.generate_state(), p.generate_state());
+                let after = p.calculate();
+                if g1 != g2 || !same(&after, &fresh) {
+                    return Some(format!("mode {m}, Performance::new(map).{what}: generate_state() twice, then calculate() — differs from the same builder calculated straight away\n first state : {g1:?}\n second state: {g2:?}\n calculate() afterwards: {after:?}\n calculate() of a builder never asked: {fresh:?}"));
+                }
+            }
+        }
+    }
+    None
 }
 
 // ------------------------------------------------------------------ (A) hash order
@@ -544,7 +569,7 @@ fn main() {
     }
 
     let ctx = Ctx::from_env_caps("C01", 55, 1500);
-    ctx.rule("universe 'bpm-hash-order': every timing set of <= 4 uninherited lines over 4 beat lengths (one rounding onto another) x gap patterns x 3 tail lengths; all k! iteration orders of the k distinct beat lengths through the seam, plus two calls under the hash map's own order; bpm() must be bit-identical. universe 'address-phase': difficulty / strains / performance / gradual on 3 long synthetic maps (600 sliders, 900 and 1000 objects) and the 4 fixtures, all reachable modes, 2 settings, under all 8 placement phases {0,8,..,56} modulo 64 of every heap buffer >= 64 bytes (helper binary with a phase-shifting global allocator): digests must equal those of phase 0. universe 'decode-after-broken-text': every text obtained from the 6 pool texts (and the first with three multi-segment sliders appended) by cutting one line of [Difficulty] / [TimingPoints] / [HitObjects] after any one of its delimiters and putting an unparsable token there (dropping the rest of the line, or replacing only that token), with and without the rest of the file; on a thread of its own: decode it, then every well-formed text via bytes and str (must equal the first-decode reference), then the broken text again (must equal its first decode). universe 'histories': every history (repetitions allowed) of depth <= 3 over the op pool (decode, bpm, convert x 3 entry points, difficulty, strains, performance, gradual difficulty / performance walks for 4 settings incl. Random with and without seed, mania under Invert / HoldOff / both on a map with chords, lock-step walks of two calculators, builder reuse incl. configure-then-switch vs switch-then-configure) on 6 maps; oracle = each op's result digest equals the digest the same op yields as the only op of a fresh process (two fresh processes per op must agree with each other), maps passed by reference unchanged; non-trivial = more than one distinct beat length / history of length >= 2");
+    ctx.rule("universe 'bpm-hash-order': every timing set of <= 4 uninherited lines over 4 beat lengths (one rounding onto another) x gap patterns x 3 tail lengths; all k! iteration orders of the k distinct beat lengths through the seam, plus two calls under the hash map's own order; bpm() must be bit-identical. universe 'address-phase': difficulty / strains / performance / gradual on 3 long synthetic maps (600 sliders, 900 and 1000 objects) and the 4 fixtures, all reachable modes, 2 settings, under all 8 placement phases {0,8,..,56} modulo 64 of every heap buffer >= 64 bytes (helper binary with a phase-shifting global allocator): digests must equal those of phase 0. universe 'decode-after-broken-text': every text obtained from the 6 pool texts (and the first with three multi-segment sliders appended) by cutting one line of [Difficulty] / [TimingPoints] / [HitObjects] after any one of its delimiters and putting an unparsable token there (dropping the rest of the line, or replacing only that token), with and without the rest of the file; on a thread of its own: decode it, then every well-formed text via bytes and str (must equal the first-decode reference), then the broken text again (must equal its first decode). universe 'histories': every history (repetitions allowed) of depth <= 3 over the op pool (decode, bpm, convert x 3 entry points, difficulty, strains, performance, gradual difficulty / performance walks for 4 settings incl. Random with and without seed, mania under Invert / HoldOff / both on a map with chords, lock-step walks of two calculators, builder reuse); universe 'builder-histories': per map, configure-then-switch vs switch-then-configure (4 configurations x 3 target modes) and generate_state() twice before calculate() vs a builder never asked (3 configurations x every reachable mode) on 6 maps; oracle = each op's result digest equals the digest the same op yields as the only op of a fresh process (two fresh processes per op must agree with each other), maps passed by reference unchanged; non-trivial = more than one distinct beat length / history of length >= 2");
     ctx.assume("the fresh-process reference table is produced by this same checker binary started once per op and repetition");
 
     timing_universe(&ctx);
@@ -553,6 +578,14 @@ fn main() {
     let rich = !ctx.quick();
     let world = World::new();
     decode_after_broken_universe(&ctx, &world);
+    ctx.universe("builder-histories", world.maps.len() as u64, |idx, l| {
+        l.states(1);
+        l.nontrivial();
+        l.checked(60);
+        if let Some(msg) = builder_histories(&world.maps[idx as usize]) {
+            l.violation("impure", || format!("map #{idx} = {}\n{msg}", world.specs[idx as usize].describe()));
+        }
+    });
     let ops = all_ops(&world.specs, rich);
     // reference table from fresh processes (2 per op)
     let exe = std::env::current_exe().expect("exe");
